@@ -30,6 +30,7 @@ func TestVerifReplay(t *testing.T) {
 		"Verif_C12_Attribution":            Verif_C12_Attribution,
 		"Verif_C12_AttributionDecls":       Verif_C12_AttributionDecls,
 		"Verif_C12_DocText":                Verif_C12_DocText,
+		"Verif_C12_Layouts":                Verif_C12_Layouts,
 		"Verif_C12_LineWrap":               Verif_C12_LineWrap,
 		"Verif_C12_AttributionParsed":      Verif_C12_AttributionParsed,
 		"Verif_C12_AttributionDeclsParsed": Verif_C12_AttributionDeclsParsed,
